@@ -765,6 +765,8 @@ def r203(ctx, rep, f, ev, cg, reach):
 
 
 def _variant_names(pat):
+    if pat["k"] == "Variant" and (pat.get("adt") or "").endswith("result::Result") and len(pat.get("subs", [])) == 1:
+        return _variant_names(pat["subs"][0]["p"])      # `Ok(Word::X)` / `Err(Ambiguous::Y)`: the inner variant
     if pat["k"] == "Variant":
         return [pat.get("vname")]
     if pat["k"] == "Or":
